@@ -111,11 +111,13 @@ def ServerStream.processConnect (env : Env) (now : Time) (rnd : Rnd) (linkUp : B
         maxSubstreamId := p.maxSubstreamId, supportedFunctions := p.supportedFunctions, minorVersion := p.minorVersion,
         sessionId := client.localSessionId, packetId := 1, payload := response }
       let ack := { ack with signature := env.packetSig codec ack [] (p.connectionSignature.getD []) }
-      if !linkUp then { s, outs := startOuts, err := some .closed }
-      else
-        match encodeChecked env.cfg ack with
-        | .error e => { s, outs := startOuts, err := some e }
-        | .ok data => { s, outs := [.emit addr ack data] ++ startOuts }
+      let res : List SOut × Option Err :=
+        if !linkUp then (startOuts, some .closed)
+        else
+          match encodeChecked env.cfg ack with
+          | .error e => (startOuts, some e)
+          | .ok data => ([.emit addr ack data] ++ startOuts, none)
+      { s, outs := res.1, err := res.2 }
 
 /-- run a connection-level step for client `k` and lift its result -/
 def ServerStream.liftConn (s : ServerStream) (k : ClientKey) (r : R) : SR :=
